@@ -541,7 +541,7 @@ func pureResult(f *ssa.Function) bool {
 	}
 	n := calleeName(f)
 	for _, p := range []string{"fmt.", "strings.", "strconv.", "errors.", "path.", "path/filepath.", "os.", "encoding/json.Marshal", "bytes.", "sort.", "regexp.", "reflect.DeepEqual",
-		"golang.org/x/exp/maps.Keys", "maps.Keys", "unicode.", "time.", "math."} {
+		"golang.org/x/exp/maps.Keys", "maps.Keys", "unicode.", "time.", "math.", "reflect."} {
 		if strings.HasPrefix(n, p) {
 			return true
 		}
